@@ -3,6 +3,8 @@
 A *mesh case* is a JSON-serialisable dict
 
     kind    "hex" | "tet5" | "tet6"     8-node bricks, or every brick cell split into 5 / 6 tetrahedra
+            | "mixed"                    per cell (case["cells"][c] in hex/tet5/tet6) a brick or its split into tetrahedra:
+                                         bricks and tetrahedra in one table, sharing the grid nodes
     n       [nx, ny, nz]                 cells per direction (block mesh)
     pert    [] | [[dx,dy,dz]] * N        node displacement in units of the cell size, |component| <= 0.15
     A, t    3x3 matrix, 3-vector         x = A @ (grid + pert) + t
@@ -78,24 +80,36 @@ def _nindex(n, ijk):
     return ijk[0] + (n[0] + 1) * (ijk[1] + (n[1] + 1) * ijk[2])
 
 
-def connectivity(kind, n):
+def connectivity(kind, n, cells=None):
     """List of elements, each a list of grid-node numbers in the node order pyLife documents
-    (bricks: bottom face counter-clockwise, then top face; tetrahedra: positively oriented)."""
+    (bricks: bottom face counter-clockwise, then top face; tetrahedra: positively oriented).
+    kind "mixed": cells[c] names the kind of cell c (cells numbered i fastest, then j, then k)."""
     elements = []
+    c = 0
     for k in range(n[2]):
         for j in range(n[1]):
             for i in range(n[0]):
-                if kind == "hex":
-                    elements.append([_nindex(n, (i + a, j + b, k + c)) for a, b, c in HEX_LOCAL])
+                ckind = cells[c] if kind == "mixed" else kind
+                c += 1
+                if ckind == "hex":
+                    elements.append([_nindex(n, (i + a, j + b, k + cc)) for a, b, cc in HEX_LOCAL])
                     continue
-                template = _TET5 if kind == "tet5" else _TET6
-                mirror = kind == "tet5" and (i + j + k) % 2 == 1     # alternate so that face diagonals match
+                template = _TET5 if ckind == "tet5" else _TET6
+                mirror = ckind == "tet5" and (i + j + k) % 2 == 1     # alternate so that face diagonals match
                 for tet in template:
-                    loc = [((1 - a) if mirror else a, b, c) for a, b, c in tet]
+                    loc = [((1 - a) if mirror else a, b, cc) for a, b, cc in tet]
                     if _vol6(*loc) < 0:
                         loc[2], loc[3] = loc[3], loc[2]
-                    elements.append([_nindex(n, (i + a, j + b, k + c)) for a, b, c in loc])
+                    elements.append([_nindex(n, (i + a, j + b, k + cc)) for a, b, cc in loc])
     return elements
+
+
+def elements_of(case):
+    return connectivity(case["kind"], case["n"], case.get("cells"))
+
+
+def mixed_element_count(n, cells):
+    return sum({"hex": 1, "tet5": 5, "tet6": 6}[c] for c in cells)
 
 
 def coordinates(case):
@@ -121,20 +135,20 @@ def row_order(case):
 
     blocks       element blocks in the order rows['perm'] (a permutation of the elements), node order kept
     interleaved  rows of different elements are interleaved; the relative order of the rows of one element is kept
-                 (rows['perm'] is a permutation of all rows; row r of the result belongs to element perm[r] // npe)
+                 (rows['perm'] is a permutation of all rows; row r of the result belongs to the element that owns
+                 row perm[r] of the block-ordered table)
     shuffled     rows['perm'] is an arbitrary permutation of all rows (within-element order destroyed)
     """
-    npe = nodes_per_element(case["kind"])
-    ne = element_count(case["kind"], case["n"])
+    con = elements_of(case)
     mode, perm = case["rows"]["mode"], case["rows"]["perm"]
-    base = [(e, a) for e in range(ne) for a in range(npe)]
+    base = [(e, a) for e in range(len(con)) for a in range(len(con[e]))]
     if mode == "blocks":
-        return [(e, a) for e in perm for a in range(npe)]
+        return [(e, a) for e in perm for a in range(len(con[e]))]
     if mode == "interleaved":
-        nxt = [0] * ne
+        nxt = [0] * len(con)
         out = []
         for r in perm:
-            e = r // npe
+            e = base[r][0]
             out.append((e, nxt[e]))
             nxt[e] += 1
         return out
@@ -156,7 +170,7 @@ def is_interleaved(case):
 def mesh_rows(case):
     """Rows of the mesh table: list of dicts node_id, element_id, gnode (grid node number), x, y, z."""
     xyz = coordinates(case)
-    con = connectivity(case["kind"], case["n"])
+    con = elements_of(case)
     rows = []
     for e, a in row_order(case):
         g = con[e][a]
@@ -169,7 +183,7 @@ def min_edge(case):
     """Shortest distance between two nodes of one element (length scale of the mesh)."""
     xyz = coordinates(case)
     best = float("inf")
-    for el in connectivity(case["kind"], case["n"]):
+    for el in elements_of(case):
         for i in range(len(el)):
             for j in range(i):
                 d = math.dist(xyz[el[i]], xyz[el[j]])
@@ -262,8 +276,21 @@ def block_meshes(draw, kinds=("hex",), row_modes=("blocks",), max_cells=27, want
     while n[0] * n[1] * n[2] > max_cells:
         n[n.index(max(n))] -= 1
     N = node_count(n)
-    E = element_count(kind, n)
-    npe = nodes_per_element(kind)
+    cells = None
+    if kind == "mixed":
+        if n[0] * n[1] * n[2] < 2:
+            n[draw(st.integers(0, 2))] = 2
+            N = node_count(n)
+        ncell = n[0] * n[1] * n[2]
+        tet = draw(st.sampled_from(["tet5", "tet6"]))
+        cells = [draw(st.sampled_from(["hex", tet])) for _ in range(ncell)]
+        if len(set(cells)) < 2:              # both element types, in either order
+            cells[draw(st.integers(0, ncell - 1))] = tet if cells[0] == "hex" else "hex"
+        E = mixed_element_count(n, cells)
+        nrows = sum(len(el) for el in connectivity("mixed", n, cells))
+    else:
+        E = element_count(kind, n)
+        nrows = E * nodes_per_element(kind)
     if draw(st.integers(0, 3)) == 0:
         pert = []
     else:
@@ -275,9 +302,12 @@ def block_meshes(draw, kinds=("hex",), row_modes=("blocks",), max_cells=27, want
     if mode == "blocks":
         perm = list(draw(st.permutations(list(range(E))))) if draw(st.booleans()) else list(range(E))
     else:
-        perm = list(draw(st.permutations(list(range(E * npe)))))
-    return {"kind": kind, "n": n, "pert": pert, "A": aff["A"], "t": aff["t"], "nid": nid, "eid": eid,
+        perm = list(draw(st.permutations(list(range(nrows)))))
+    out = {"kind": kind, "n": n, "pert": pert, "A": aff["A"], "t": aff["t"], "nid": nid, "eid": eid,
             "rows": {"mode": mode, "perm": perm}, "levels": draw(st.sampled_from(["ne", "en"]))}
+    if cells is not None:
+        out["cells"] = cells
+    return out
 
 
 def geometry_is_plain(case):
